@@ -2,6 +2,9 @@ package otp
 
 // deriveRFC6287 is based on https://datatracker.ietf.org/doc/html/rfc6287
 func deriveRFC6287(secret []byte, s Suite, input OCRAInput) (string, error) {
+	if s == nil {
+		return "", ErrInvalidRawSuite
+	}
 	if err := s.Validate(); err != nil {
 		return "", err
 	}
